@@ -166,6 +166,7 @@ class SLE(Equilibrium, phases='ls'):
         nonzero = frozenset(mol.nonzero_keys())
         if self._nonzero == nonzero:
             index = self._index
+            self._chemical = None # Index is only remembered for mixtures
         else:
             chemicals = self.chemicals
             # Set up indices for both equilibrium and non-equilibrium species
@@ -174,6 +175,7 @@ class SLE(Equilibrium, phases='ls'):
             if N == 1:
                 self._chemical = chemicals.tuple[solute_index]
             else:
+                self._chemical = None
                 # Set equilibrium objects
                 eq_chems = chemicals.tuple
                 eq_chems = [eq_chems[i] for i in index]
